@@ -314,8 +314,16 @@ def main():
     tier = os.environ.get("VERIF_TIER", "quick")
     if len(args) > 1:
         if args[1] == "--replay":
+            # the case list is a function of (tier, seed): re-run the run that produced the replay file and show the child's output
             replay = os.path.abspath(args[2])
             tier = "quick"
+            try:
+                rj = json.load(open(replay))
+                tier = rj.get("tier", tier)
+                os.environ["VERIF_SEED"] = str(rj.get("seed", os.environ.get("VERIF_SEED", "1")))
+            except Exception as e:
+                log("cannot read replay file:", e)
+                return 2
         else:
             tier = args[1]
     if tier not in ("quick", "thorough"):
